@@ -14,12 +14,12 @@ def make(mod, pid, units, streams_quick, streams_thorough, search_streams=None):
         if n:
             parts += core.pmap_chunks(cluster.run_cases, seed, n, (tier, "corpus"), jobs=1)
         for stream, count in streams:
-            fn = cluster.run_ns_cases if stream == "ns" else cluster.run_cases
+            fn = cluster.run_ns_cases if stream == "ns" else cluster.run_file_cases if stream == "files" else cluster.run_cases
             parts += core.pmap_chunks(fn, seed, int(count * scale), (tier, stream))
         st = core.merge_all(parts)
         st.disagreements = [d for d in st.disagreements if d["unit"] in units]
         st.failures = [f for f in st.failures if f["prop"] == pid]
-        st.units = {k: v for k, v in st.units.items() if k in units}
+        st.units = {k: v for k, v in st.units.items() if k in units or k == 'files'}
         return st
 
     def run(tier, seed, intensify=False):
